@@ -56,6 +56,7 @@ type funcContract struct {
 	lemmas       []*clause
 	tier         string // "" = quick, "ext" = thorough only
 	expectFail   map[string]bool
+	dynPure      bool
 	allocBound   string
 	wraps        bool
 }
@@ -391,6 +392,8 @@ func (cs *contractSet) loadFile(path, pkgPath string) error {
 				cur.allocBound = rest
 			case "wraps":
 				cur.wraps = true
+			case "dynamic_calls_modify_nothing":
+				cur.dynPure = true
 			case "requires":
 				c, err := cs.parseClause(rest, ln, fmt.Sprintf("r%d", len(cur.requires)+1))
 				if err != nil {
@@ -466,6 +469,15 @@ func (cs *contractSet) loadFile(path, pkgPath string) error {
 				cur.callRequires[f[0]] = append(cur.callRequires[f[0]], c)
 			case "at":
 				// at <where...> : ghost name = expr
+				if ka := strings.Index(rest, ": assume "); ka >= 0 {
+					// at <where>: assume <expr>   -- an explicitly listed assumption (e.g. a channel's message invariant)
+					e, err := parseSpecExpr(rest[ka+9:])
+					if err != nil {
+						return fail(err)
+					}
+					cur.ghostAt = append(cur.ghostAt, ghostUpdate{where: strings.TrimSpace(rest[:ka]), name: "@assume", expr: e, text: rest[ka+9:]})
+					continue
+				}
 				k := strings.Index(rest, ": ghost ")
 				if k < 0 {
 					return fail(fmt.Errorf("bad at directive"))
